@@ -11,7 +11,14 @@
 //	      the without-run, statements in application order (deviating modules by name, deviations
 //	      and deviate statements as written); a deviation the property says must be reported
 //	      (missing target, claimed precondition failures, unknown kind, unresolvable type) makes
-//	      Process return errors, and a set of deviations the RFC allows does not.
+//	      Process return errors, and a set of deviations the RFC allows does not;
+//	(iv)  target resolution: a deviation argument that names no schema node by RFC 7950 6.5 (every step
+//	      names a direct child of the node before it, choice and case nodes — written or implied —
+//	      included; judged by Goyang.Spec.DevTarget via drv_dev `spec.target` on the Go dump of the
+//	      without-run) must be reported — with an error of the missing-target class whenever the
+//	      deviation stage was reached at all — and must change nothing (`spec.missing`).  The generator
+//	      proposes near misses (choice / case steps left out, a case without its choice, a descendant
+//	      named as a child); a proposal that does name a node is an ordinary target.
 package main
 
 import (
@@ -129,6 +136,10 @@ type plan struct {
 	unknown   bool              // some deviate statement has an unknown kind
 	notInBase []string          // generator named a target the base dump does not have
 	reqIdx    map[string]int    // incarnation key -> index of its spec request
+	// noNode: the deviations whose written path names no schema node at all (designed so, or a target
+	// the base dump does not have), as opposed to targets an earlier not-supported removed
+	noNode []string
+	near   []string // kinds of the near misses among them (which steps were left out)
 }
 
 func isKnownKind(k string) bool {
@@ -181,13 +192,20 @@ func makePlan(c gen.C08Case, base map[string]rec) *plan {
 			}
 		}
 		if d.Missing {
-			p.missing = append(p.missing, d.Arg)
+			if d.Spelt != "" {
+				p.missing = append(p.missing, d.Arg+" (near miss, left out: "+d.Near+")")
+				p.near = append(p.near, d.Near)
+			} else {
+				p.missing = append(p.missing, d.Arg)
+			}
+			p.noNode = append(p.noNode, d.Arg)
 			continue
 		}
 		_, inBase := base[loc(d)]
 		if !inBase && !(d.Implicit && isRpcIO(loc(d), base)) {
 			p.notInBase = append(p.notInBase, loc(d))
 			p.missing = append(p.missing, d.Arg)
+			p.noNode = append(p.noNode, d.Arg)
 			continue
 		}
 		if !inBase {
@@ -246,6 +264,100 @@ func b01(x bool) string {
 		return "1"
 	}
 	return "0"
+}
+
+// targetRequest renders the spec.target request for a near miss: the tree is what the Go dump of the
+// without-run shows of the module the first prefix denotes.
+func targetRequest(d gen.Deviation, base map[string]rec) string {
+	names := strings.Split(strings.TrimPrefix(d.Spelt, "/"), "/")
+	var sb strings.Builder
+	fmt.Fprintf(&sb, "spec.target %s %d", lib.HexS(names[0]), len(names)-1)
+	for _, n := range names[1:] {
+		sb.WriteString(" " + lib.HexS(n))
+	}
+	var nodes []string
+	for _, r := range base {
+		if r.mod == d.TargetMod {
+			n := lib.HexS(r.path)
+			if r.f["rpc"] == "1" {
+				n += "!"
+			}
+			nodes = append(nodes, n)
+		}
+	}
+	sort.Strings(nodes)
+	for _, n := range nodes {
+		sb.WriteString(" " + n)
+	}
+	return sb.String()
+}
+
+// errClasses: the classes of the errors of a dump ("E file:line:col:class").
+func errClasses(dump []string) map[string]bool {
+	out := map[string]bool{}
+	for _, r := range dump {
+		if strings.HasPrefix(r, "E ") {
+			out[r[strings.LastIndexByte(r, ':')+1:]] = true
+		}
+	}
+	return out
+}
+
+// deviationStage: the error classes only Entry.ApplyDeviate produces.  One of them among the errors of a
+// run means that the run reached the deviation stage (it is the last one), and there every deviation
+// without a target node adds an error of the class deviate-no-target of its own.
+var deviationStage = []string{"deviate-no-target", "deviate-add-many-defaults", "deviate-add-default-exists", "deviate-delete-default-leaflist",
+	"deviate-delete-default-missing", "deviate-delete-default-mismatch", "deviate-min-nonlist", "deviate-max-nonlist",
+	"deviate-delete-min-mismatch", "deviate-delete-max-mismatch", "deviate-no-parent", "deviate-already-removed"}
+
+// frameChanges lists the nodes outside every deviation target (and not below a not-supported target)
+// that the run with the deviating modules shows differently from the run without them.
+func frameChanges(p *plan, base, with map[string]rec) []string {
+	var paths, out []string
+	for path := range base {
+		paths = append(paths, path)
+	}
+	sort.Strings(paths)
+	for _, path := range paths {
+		if _, isTarget := p.last[path]; isTarget {
+			continue
+		}
+		skip := false
+		for _, r := range p.removed {
+			if below(path, r) {
+				skip = true
+			}
+		}
+		if skip {
+			continue
+		}
+		w, there := with[path]
+		switch {
+		case !there:
+			out = append(out, path+" disappeared")
+		case w.proj(frameKeys) != base[path].proj(frameKeys):
+			out = append(out, path+" changed: "+readableDiff(base[path], w))
+		}
+	}
+	return out
+}
+
+// readableDiff names the fields of two records that differ ("def [3830] -> [78]").
+func readableDiff(a, b rec) string {
+	var ds []string
+	for _, k := range frameKeys {
+		if a.f[k] != b.f[k] {
+			ds = append(ds, k+" "+short(a.f[k])+" -> "+short(b.f[k]))
+		}
+	}
+	return strings.Join(ds, ", ")
+}
+
+func short(v string) string {
+	if len(v) > 20 {
+		return v[:16] + "…"
+	}
+	return v
 }
 
 // specRequest renders the spec.deviate request for one target.
@@ -329,6 +441,8 @@ type stats struct {
 	evaluated, clean, reportedAsClaimed, unclaimedReported, unclaimedApplied, baseErr, outside, parse, badTypeCases int64
 	targets, framed                                                                                              int64
 	notInBase                                                                                                    int64
+	nearProposed, nearNames, nearReported                                                                        int64
+	nearMissing                                                                                                  map[string]int
 	baseErrClass, claimedWhy                                                                                     map[string]int
 	combos                                                                                                       map[string]bool
 	distinct                                                                                                     *lib.Distinct
@@ -346,12 +460,64 @@ func evaluate(items []gen.C08Case, f *lib.Flags, res *lib.Result, st *stats, ver
 	plans := make([]*plan, len(items))
 	bases := make([]map[string]rec, len(items))
 	var reqs []string
+	// (iv) the proposed near misses: the specification decides, on the Go dump of the without-run, whether
+	// the written steps name a node
+	adj := make([][]gen.Deviation, len(items))
+	{
+		type tref struct{ item, dev int }
+		var treqs []string
+		var trefs []tref
+		for i, it := range items {
+			ow, owo := outs[2*i], outs[2*i+1]
+			if ow.Crashed || owo.Crashed || ow.Skipped != "" || owo.Skipped != "" || rescorr.HasErrors(owo.Go.Dump) {
+				continue
+			}
+			bases[i] = index(owo.Go.Dump)
+			for k, d := range it.Devs {
+				if d.Missing && d.Spelt != "" {
+					treqs = append(treqs, targetRequest(d, bases[i]))
+					trefs = append(trefs, tref{i, k})
+				}
+			}
+		}
+		tans, err := lib.ParBatch(specDrv, treqs, f.Procs)
+		if err != nil {
+			lib.Fatal("spec driver %s: %v", specDrv, err)
+		}
+		for j, tr := range trefs {
+			it := items[tr.item]
+			if adj[tr.item] == nil {
+				adj[tr.item] = append([]gen.Deviation{}, it.Devs...)
+			}
+			d := &adj[tr.item][tr.dev]
+			st.nearProposed++
+			switch a := tans[j]; {
+			case a == "names":
+				// the shortened path happens to name another node: an ordinary deviation of that node
+				st.nearNames++
+				d.Missing, d.Target = false, d.Spelt
+				if _, inBase := bases[tr.item][loc(*d)]; !inBase {
+					d.Implicit = true
+				}
+			case strings.HasPrefix(a, "missing "):
+				st.nearMissing[d.Near]++
+			default:
+				res.AddDisagreement(lib.Disagreement{Kind: "obligation", Input: it, Go: treqs[j], Model: a, SpecVerdict: "",
+					What: "spec driver did not answer a spec.target request", Replay: it})
+			}
+			if verbose {
+				fmt.Printf("spec.target %s in %s (%s left out) -> %s\n", d.Arg, d.TargetMod, d.Near, tans[j])
+			}
+		}
+	}
 	for i, it := range items {
 		ow, owo := outs[2*i], outs[2*i+1]
 		if ow.Crashed || owo.Crashed || ow.Skipped != "" || owo.Skipped != "" || rescorr.HasErrors(owo.Go.Dump) {
 			continue
 		}
-		bases[i] = index(owo.Go.Dump)
+		if adj[i] != nil {
+			it.Devs = adj[i]
+		}
 		p := makePlan(it, bases[i])
 		if it.Malformed {
 			p.order = nil // nothing to ask the specification: the statement itself is malformed
@@ -376,6 +542,32 @@ func evaluate(items []gen.C08Case, f *lib.Flags, res *lib.Result, st *stats, ver
 	ans, err := lib.ParBatch(specDrv, reqs, f.Procs)
 	if err != nil {
 		lib.Fatal("spec driver %s: %v", specDrv, err)
+	}
+	// spec.missing: what the property demands of a run with a deviation that names no node
+	var md *lib.Driver
+	defer func() {
+		if md != nil {
+			md.Close()
+		}
+	}()
+	missMemo := map[string]string{}
+	askMissing := func(reported bool, changed int) string {
+		q := fmt.Sprintf("spec.missing %s %d", b01(reported), changed)
+		if a, ok := missMemo[q]; ok {
+			return a
+		}
+		if md == nil {
+			var err error
+			if md, err = lib.StartDriver(specDrv); err != nil {
+				lib.Fatal("spec driver %s: %v", specDrv, err)
+			}
+		}
+		a, err := md.Ask(q)
+		if err != nil {
+			lib.Fatal("spec driver %s: %v", specDrv, err)
+		}
+		missMemo[q] = a
+		return a
 	}
 	for i, it := range items {
 		ow, owo := outs[2*i], outs[2*i+1]
@@ -483,12 +675,47 @@ func evaluate(items []gen.C08Case, f *lib.Flags, res *lib.Result, st *stats, ver
 		if key == "" {
 			key = strings.Join(it.DevTexts, "\x00") + "\x01" + strings.Join(it.BaseTexts, "\x00")
 		}
+		cls := errClasses(ow.Go.Dump)
+		stageReached := false
+		for _, c := range deviationStage {
+			stageReached = stageReached || cls[c]
+		}
 		switch {
+		case len(p.missing) > 0 && !goErr:
+			// (iv) a deviation without a target node: not reported; did it change anything?
+			ch := frameChanges(p, base, index(ow.Go.Dump))
+			v := askMissing(false, len(ch))
+			what := "a deviation that names no schema node was not reported (RFC 7950 6.5: each step names a direct child, choice/case too): " + p.missing[0]
+			if len(ch) > 0 {
+				what += fmt.Sprintf("; and it changed %d node(s) no deviation targets: %s", len(ch), ch[0])
+			}
+			verdict := ""
+			if strings.HasPrefix(v, "violates") {
+				verdict = "violates"
+			}
+			res.AddDisagreement(lib.Disagreement{Kind: "spec", Input: it, Go: lib.Project(ow.Go.Dump, keys, true),
+				Model: map[string]any{"must_be_reported": claimed, "changed_although_untargeted": ch, "spec.missing": v},
+				SpecVerdict: verdict, What: what, Replay: it})
+			continue
 		case len(claimed) > 0 && !goErr:
 			res.AddDisagreement(lib.Disagreement{Kind: "spec", Input: it, Go: lib.Project(ow.Go.Dump, keys, true), Model: claimed,
 				SpecVerdict: "violates", What: "a deviation that cannot be applied was not reported: " + claimed[0], Replay: it})
 			continue
+		case len(p.missing) > 0 && stageReached && !cls["deviate-no-target"]:
+			// errors were returned, the deviation stage was reached (some error is of a class only that
+			// stage produces), and yet none of them is about the missing target
+			res.AddDisagreement(lib.Disagreement{Kind: "spec", Input: it, Go: lib.Project(ow.Go.Dump, keys, true),
+				Model: map[string]any{"must_be_reported": claimed, "spec.missing": askMissing(false, 0)},
+				SpecVerdict: "violates", What: "a deviation that names no schema node was not reported as such (RFC 7950 6.5: each step names a direct child, choice/case too), " +
+					"the errors of the deviation stage are only " + strings.Join(lib.SortedKeys(cls), ",") + ": " + p.missing[0], Replay: it})
+			continue
 		case len(claimed) > 0:
+			if len(p.missing) > 0 && askMissing(true, 0) != "holds" {
+				lib.Fatal("spec.missing 1 0 is not `holds`")
+			}
+			if len(p.near) > 0 {
+				st.nearReported++
+			}
 			st.reportedAsClaimed++
 			why := claimed[0]
 			if i := strings.LastIndex(why, ": "); i >= 0 {
@@ -498,6 +725,9 @@ func evaluate(items []gen.C08Case, f *lib.Flags, res *lib.Result, st *stats, ver
 				why = "no target"
 				if strings.Contains(claimed[0], "removed by") {
 					why = "no target (removed earlier)"
+				}
+				if strings.Contains(claimed[0], "(near miss, left out") {
+					why = "no target (near miss: steps left out)"
 				}
 			}
 			st.claimedWhy[why]++
@@ -679,7 +909,8 @@ func main() {
 		rescorr.ServeChild(nil)
 		return
 	}
-	st := &stats{combos: map[string]bool{}, distinct: lib.NewDistinct(), baseErrClass: map[string]int{}, claimedWhy: map[string]int{}}
+	st := &stats{combos: map[string]bool{}, distinct: lib.NewDistinct(), baseErrClass: map[string]int{}, claimedWhy: map[string]int{},
+		nearMissing: map[string]int{}}
 	if f.Replay != "" {
 		raw, err := os.ReadFile(f.Replay)
 		if err != nil {
@@ -751,9 +982,10 @@ func main() {
 	res.DistinctNontrivial = st.distinct.Len()
 	res.Rule = "each case = base schema x set of deviations, run with and without the deviating modules on goyang and on the Lean model; " +
 		"exhaustive part: deviate kind x property x target kind (leaf, leaf-list, list, container, choice, anyxml, rpc input) x state of the property in the target " +
-		"(absent / same value / other value), not-supported under both options (once, twice, followed by another statement or deviation), unknown kinds, missing targets, " +
+		"(absent / same value / other value), not-supported under both options (once, twice, followed by another statement or deviation), unknown kinds, missing targets, near-miss targets (one base with written, short-hand, nested, grouping-made, augmented choices, in a list and an rpc input: " +
+		"every way of leaving out choice / case / container steps, a case without its choice, a descendant as a child, x statements that would apply cleanly to the node a generous lookup reaches), " +
 		"unresolvable types, boundary bound values, every ordered pair of kinds on one property in one deviation / two deviations / two modules; random part: generated base sets " +
-		"(harness/gen without deliberate faults) with 1-2 deviating modules x 1-3 deviations x 1-3 deviate statements x 1-3 properties, 30% with the ignore option; " +
+		"(harness/gen without deliberate faults) with 1-2 deviating modules x 1-3 deviations x 1-3 deviate statements x 1-3 properties, 30% with the ignore option, one deviation in twenty (one in six of those through a choice or case) turned into a near miss (steps other than the last left out; spec.target on the Go dump of the without-run decides whether it names a node); " +
 		"distinct_nontrivial = distinct cases (combination name, or texts) whose base processes cleanly and on which the verdict was fully evaluated: " +
 		"either an error was demanded and reported, or frame and every target record were compared with the specification"
 	res.Exhaustive = false
@@ -777,5 +1009,9 @@ func main() {
 	res.Distribution["targets_compared_with_spec"] = st.targets
 	res.Distribution["frame_records_compared"] = st.framed
 	res.Distribution["generated_target_not_in_base_dump"] = st.notInBase
+	res.Distribution["near_miss_paths_proposed(steps other than the last left out)"] = st.nearProposed
+	res.Distribution["near_miss_paths_that_name_another_node(ordinary target)"] = st.nearNames
+	res.Distribution["near_miss_paths_naming_no_node_by_spec.target"] = st.nearMissing
+	res.Distribution["cases_with_near_miss_reported"] = st.nearReported
 	res.Write(f.Out)
 }
